@@ -39,7 +39,8 @@ struct RecStrat {
     calls: Mutex<usize>,
 }
 
-const BUILD_MSG: &str = "injected build failure 0xC18";
+// (leading / trailing white space and a line break: the text must reach the caller untouched)
+const BUILD_MSG: &str = "  injected build failure 0xC18\n  second line \t\n";
 
 impl<const MIN: usize, Sd, Sx, D> Interp1DStrategyBuilder<Sd, Sx, D> for RecBuilder<MIN>
 where
@@ -76,7 +77,7 @@ where
         self.log.lock().unwrap().push(Event::Call { x: bits(x), y: 0, target_shape: target.shape().to_vec() });
         target.fill(x);
         if self.fail_at == Some(k) {
-            return Err(InterpolateError::OutOfBounds(format!("injected failure at call {k}")));
+            return Err(InterpolateError::OutOfBounds(format!(" injected failure at call {k}\n ")));
         }
         Ok(())
     }
@@ -128,7 +129,7 @@ where
         self.log.lock().unwrap().push(Event::Call { x: bits(x), y: bits(y), target_shape: target.shape().to_vec() });
         target.fill(x + y);
         if self.fail_at == Some(k) {
-            return Err(InterpolateError::OutOfBounds(format!("injected failure at call {k}")));
+            return Err(InterpolateError::OutOfBounds(format!(" injected failure at call {k}\n ")));
         }
         Ok(())
     }
@@ -789,7 +790,7 @@ fn judge_calls(out: &mut JobOut, key: &str, ev: &[Event], qx: &[f64], qy: Option
         }
     }
     let want = match fail_at {
-        Some(k) if k < qx.len() => format!("Err:injected failure at call {k}"),
+        Some(k) if k < qx.len() => format!("Err: injected failure at call {k}\n "),
         _ => "Ok".to_string(),
     };
     if result != want {
@@ -977,7 +978,7 @@ fn part_calls(out: &mut JobOut) {
     let ev = log.lock().unwrap().clone();
     out.evals += 1;
     let ok = a == Ok(Ok(-3.25))
-        && b == Ok(Err("injected failure at call 1".to_string()))
+        && b == Ok(Err(" injected failure at call 1\n ".to_string()))
         && ev == vec![Event::Call { x: bits(-3.25), y: 0, target_shape: vec![] }, Event::Call { x: bits(f64::NAN), y: 0, target_shape: vec![] }];
     if !ok {
         out.violate("calls1d:interp_scalar".to_string(), format!("interp_scalar: results {a:?} {b:?}, strategy saw {ev:?}"), Json::Null);
@@ -988,7 +989,7 @@ fn part_calls(out: &mut JobOut) {
     let a = catch(|| ip.interp_scalar(0.5, 1e300)).map(|r| r.map_err(|e| e.to_string()));
     let ev = log.lock().unwrap().clone();
     out.evals += 1;
-    if a != Ok(Err("injected failure at call 0".to_string())) || ev != vec![Event::Call { x: bits(0.5), y: bits(1e300), target_shape: vec![] }] {
+    if a != Ok(Err(" injected failure at call 0\n ".to_string())) || ev != vec![Event::Call { x: bits(0.5), y: bits(1e300), target_shape: vec![] }] {
         out.violate("calls2d:interp_scalar".to_string(), format!("interp_scalar: result {a:?}, strategy saw {ev:?}"), Json::Null);
     }
 }
